@@ -2,6 +2,7 @@ package main
 
 import (
 	"fmt"
+	"go/types"
 	"strings"
 
 	"golang.org/x/tools/go/ssa"
@@ -20,6 +21,121 @@ func cloneOf(v ssa.Value) (ssa.Value, bool) {
 		return nil, false
 	}
 	return stripConv(call.Call.Args[0]), true
+}
+
+// pointerLike: values of this type can alias storage (everything but basic types; strings are immutable).
+func pointerLike(t types.Type) bool {
+	_, basic := t.Underlying().(*types.Basic)
+	return !basic
+}
+
+// taintedBy: v may carry a pointer derived from prm that did not pass through proto.Clone.
+func taintedBy(v ssa.Value, prm *ssa.Parameter, seen map[ssa.Value]bool, d int) bool {
+	if v == nil || seen[v] || d > 16 {
+		return false
+	}
+	seen[v] = true
+	if v == ssa.Value(prm) {
+		return true
+	}
+	if !pointerLike(v.Type()) {
+		return false
+	}
+	if _, isClone := cloneOf(v); isClone {
+		return false
+	}
+	switch x := v.(type) {
+	case *ssa.Call:
+		if calleeOf(&x.Call).Builtin == "len" || calleeOf(&x.Call).Builtin == "cap" {
+			return false
+		}
+		for _, a := range x.Call.Args {
+			if taintedBy(a, prm, seen, d+1) {
+				return true
+			}
+		}
+		if x.Call.IsInvoke() {
+			return taintedBy(x.Call.Value, prm, seen, d+1)
+		}
+	case *ssa.UnOp:
+		if taintedBy(x.X, prm, seen, d+1) {
+			return true
+		}
+		if al, ok := x.X.(*ssa.Alloc); ok {
+			for _, st := range storesTo(al) {
+				if taintedBy(st.Val, prm, seen, d+1) {
+					return true
+				}
+			}
+		}
+	case *ssa.Alloc:
+		for _, st := range storesTo(x) {
+			if taintedBy(st.Val, prm, seen, d+1) {
+				return true
+			}
+		}
+	case *ssa.FieldAddr:
+		return taintedBy(x.X, prm, seen, d+1)
+	case *ssa.Field:
+		return taintedBy(x.X, prm, seen, d+1)
+	case *ssa.IndexAddr:
+		return taintedBy(x.X, prm, seen, d+1)
+	case *ssa.Index:
+		return taintedBy(x.X, prm, seen, d+1)
+	case *ssa.Lookup:
+		return taintedBy(x.X, prm, seen, d+1)
+	case *ssa.Slice:
+		return taintedBy(x.X, prm, seen, d+1)
+	case *ssa.Extract:
+		return taintedBy(x.Tuple, prm, seen, d+1)
+	case *ssa.Next:
+		return taintedBy(x.Iter, prm, seen, d+1)
+	case *ssa.Range:
+		return taintedBy(x.X, prm, seen, d+1)
+	case *ssa.TypeAssert:
+		return taintedBy(x.X, prm, seen, d+1)
+	case *ssa.ChangeType:
+		return taintedBy(x.X, prm, seen, d+1)
+	case *ssa.ChangeInterface:
+		return taintedBy(x.X, prm, seen, d+1)
+	case *ssa.MakeInterface:
+		return taintedBy(x.X, prm, seen, d+1)
+	case *ssa.Convert:
+		return taintedBy(x.X, prm, seen, d+1)
+	case *ssa.Phi:
+		for _, e := range x.Edges {
+			if taintedBy(e, prm, seen, d+1) {
+				return true
+			}
+		}
+	}
+	return false
+}
+
+// taintedFieldOfFresh: a field of the freshly allocated message (or of a fresh message nested in it) is assigned a
+// pointer-like value derived from prm without passing through proto.Clone; returns a description or "".
+func taintedFieldOfFresh(al *ssa.Alloc, prm *ssa.Parameter, d int) string {
+	if d > 4 {
+		return "nesting too deep to decide"
+	}
+	for _, r := range *al.Referrers() {
+		fa, ok := r.(*ssa.FieldAddr)
+		if !ok {
+			continue
+		}
+		for _, st := range storesTo(fa) {
+			if inner, isFresh := st.Val.(*ssa.Alloc); isFresh {
+				if bad := taintedFieldOfFresh(inner, prm, d+1); bad != "" {
+					return bad
+				}
+				continue
+			}
+			if pointerLike(st.Val.Type()) && taintedBy(st.Val, prm, map[ssa.Value]bool{}, 0) {
+				return "field " + fieldRefOfAddr(fa) + " of the balancer's copy is assigned " + vstr(st.Val) + ", which points into the caller's configuration (not a proto.Clone)"
+			}
+		}
+	}
+	return ""
 }
 
 // C17 — Configuration: defaults, fidelity and immutability of the pool config.
@@ -163,6 +279,7 @@ func checkC17(c *Ctx, w *World) {
 	cfgParam := ic.Params[1]
 	fromParam := func(v ssa.Value) bool { return usesParam(v, cfgParam) }
 	okClone := cpObj != nil
+	aliasWhy := ""
 	// every store to gb.cfg is a fresh GCPBalancerConfig whose ApiConfig is fresh or a clone of the parameter's
 	nCfgStores := 0
 	for _, a := range pl.ai.ByFn[ic] {
@@ -181,7 +298,12 @@ func checkC17(c *Ctx, w *World) {
 				continue
 			}
 			for _, st := range storesTo(fa) {
-				if _, isFresh := st.Val.(*ssa.Alloc); isFresh {
+				if fresh, isFresh := st.Val.(*ssa.Alloc); isFresh {
+					// a hand-built message: none of its fields may carry a pointer into the caller's object
+					if bad := taintedFieldOfFresh(fresh, cfgParam, 0); bad != "" {
+						okClone = false
+						aliasWhy = bad
+					}
 					continue
 				}
 				src, isClone := cloneOf(st.Val)
@@ -210,13 +332,22 @@ func checkC17(c *Ctx, w *World) {
 				if o.Val == ssa.Value(cfgParam) {
 					okClone = false
 				}
+				if _, isFresh := o.Val.(*ssa.Alloc); !isFresh && pointerLike(o.Val.Type()) && taintedBy(o.Val, cfgParam, map[ssa.Value]bool{}, 0) {
+					okClone = false
+					aliasWhy = a.Field + " receives " + vstr(o.Val) + ", which points into the caller's configuration"
+				}
 				if f, base, isL := loadedField(o.Val); isL && strings.HasPrefix(f, "GCPBalancerConfig.") && usesParam(base, cfgParam) {
 					okClone = false
 				}
 			}
 		}
 	}
-	c.check(okClone && nCfgStores >= 1, "C17.clone", "initializeConfig works on its own copy", p.pos(ic.Pos()), "gb.cfg is a fresh wrapper around a fresh message or proto.Clone(caller's ApiConfig); defaults are stored into that copy; no balancer field aliases the caller's object", "the balancer mutates or aliases the caller's configuration object")
+	c.check(okClone && nCfgStores >= 1, "C17.clone", "initializeConfig works on its own copy", p.pos(ic.Pos()), "gb.cfg is a fresh wrapper around a fresh message or proto.Clone(caller's ApiConfig); defaults are stored into that copy; no balancer field aliases the caller's object", "the balancer mutates or aliases the caller's configuration object"+func() string {
+			if aliasWhy != "" {
+				return ": " + aliasWhy
+			}
+			return ""
+		}())
 
 	// ---- C17.once
 	for _, f := range []string{"cfg", "methodCfg", "unresponsiveDetection"} {
